@@ -815,6 +815,8 @@ fn c16_profiles() -> Vec<(&'static str, Profile, u32, u32)> {
     p.o_token = 12;
     p.o_insert = 8;
     p.post_pct = 25;
+    // a callback that fails is not a registration failure: the table must be right afterwards as well
+    p.err_pct = 4;
     p.max_ops = 40;
     vec![("hist", p, 40000, 750000)]
 }
